@@ -1483,10 +1483,10 @@ impl<T: PPGEvaluatorStrategy> PPGEvaluator<T> {
                             );
                         }
                         _ => {
-                            return Err(PPGEvaluatorError::InternalError(format!(
-                                "unexpected was 7 {:?}",
-                                j
-                            )))
+                            // the job was already started or has finished: an upstream Output
+                            // that was skipped earlier and is only now relabelled
+                            // upstream-failed can not take that back.
+                            propagate = false;
                         }
                     }
                     if propagate {
